@@ -394,9 +394,50 @@ fn run_world(w: &WorldSpec, acc: &mut Acc) {
     }
 }
 
+fn canary_worlds() -> Vec<WorldSpec> {
+    let mut v = vec![];
+    worlds_n(1, 9, true, &mut |w| v.push(w.clone()));
+    worlds_n(2, 9, true, &mut |w| v.push(w.clone()));
+    // three-node cycles and chains
+    worlds_n(3, 3, false, &mut |w| {
+        if w.nodes.iter().all(|n| n.kind == Kind::B) {
+            v.push(w.clone())
+        }
+    });
+    v
+}
+
+/// worker: a missed cycle is unbounded recursion, i.e. a stack overflow that kills the process;
+/// the small worlds are therefore evaluated first in abort-isolated workers
+pub fn worker(_thorough: bool, start: usize, end: usize) {
+    let ws = canary_worlds();
+    for idx in start..end.min(ws.len()) {
+        crate::sequtil::emit_case(idx);
+        let mut acc = Acc { worlds: 0, cases: 0, accepted: 0, rejected: 0, distinct: BTreeSet::new(), violations: BTreeMap::new(), sample: vec![] };
+        run_world(&ws[idx], &mut acc);
+        crate::sequtil::emit_res(idx, "OK", "");
+    }
+    crate::sequtil::emit_done();
+}
+
 pub fn check_c09(rep: &mut Report) {
     // every worker enumerates the whole space (cheap) and evaluates the worlds of its residue class
     let thorough = rep.thorough();
+    let canary = canary_worlds();
+    let res = crate::sequtil::run_isolated("c09", &rep.tier.clone(), canary.len(), 8, &[]);
+    let died: Vec<&crate::sequtil::CaseOut> = res.iter().filter(|r| r.verdict == "DIED").collect();
+    rep.set("abort_isolated_canary_worlds", json!(canary.len()));
+    if let Some(d) = died.first() {
+        let w = &canary[d.idx];
+        rep.violation("resolver-kills-the-process (cyclic project hangs or overflows the stack)", format!("{}\n{}", w.describe(), d.detail), json!({"engine": "seqcheck", "check": "resolver", "world": w.describe()}));
+        rep.set("states", json!(1));
+        rep.set("transitions", json!(canary.len()));
+        rep.set("traces_validated_against_impl", json!(canary.len()));
+        return;
+    }
+    if res.iter().any(|r| r.verdict == "MACHINERY") || res.len() != canary.len() {
+        rep.machinery_errors.push(format!("canary workers reported {} of {} worlds", res.len(), canary.len()));
+    }
     let max3 = if thorough { 9 } else { 4 };
     let workers: Vec<usize> = (0..16).collect();
     let naming = naming_worlds(thorough);
